@@ -17,3 +17,9 @@ for k in keys:
         for o in r.obligations:
             if o.verdict != 'unsat' and o.name not in seen:
                 seen.add(o.name); print('---', o.name, o.verdict, 'L%s' % o.line); print((o.model or '')[:1500]); print(o.trace)
+    if '-t' in sys.argv:
+        tm = collections.defaultdict(float)
+        for o in r.obligations:
+            tm[o.name] = max(tm[o.name], o.time)
+        for n, t in sorted(tm.items(), key=lambda x: -x[1])[:8]:
+            print('   max %.1fs %s' % (t, n))
